@@ -35,7 +35,7 @@ Inductive den (strict : bool) (m : segs) (mid : Z) (caps : list Z) : Ptr -> valu
          /\ den strict m mid caps q (nthv vs i)) ->
     den strict m mid caps p (VStruct (words_of_bytes d) vs)
 | den_bits p d :
-    p_valid p = true -> p_kind p = KList -> p_bit p = true -> 0 <= p_len p ->
+    p_valid p = true -> p_kind p = KList -> p_bit p = true -> 0 <= p_len p < 536870912 ->
     slice (seg_of m p) (p_off p) (bitListSize (p_len p)) = Ok d ->
     den strict m mid caps p (VBits (bits_of (Z.to_nat (p_len p)) d))
 | den_comp p vs :
